@@ -1,9 +1,138 @@
 import AioModel.Wire
-/-! Driver commands of property C17 (stub until the model exists). -/
+import AioModel.C17
+/-!
+Driver commands of property C17.
+
+`run <cfg> <method> <url> <params> <defaults> <headers> <cookies> <body> <netrc> <cparse> <oracles> <chain>`
+
+* cfg      `max,allow,trust`
+* url      `scheme,host,port,hasHost,cred,hostHdr,target`   (`~` = no credentials)
+* params   `~` | request-target with the params applied
+* defaults, headers  `~` | `name,value;…`   (session default headers, caller headers)
+* cookies  `~` (None) | `!` (empty mapping) | `name,value;…`
+* body     `~` | `hex,ctype,sized,oneShot`                   (ctype `~` = none)
+* netrc    `~` | `host,auth;…`
+* cparse   `~` | `raw:name,value;…/…`                        (parse_cookie_header oracle)
+* oracles  `~` | per hop `J@R` joined by `/`: jar selection and per-request selection
+* chain    `~` | responses joined by `/`: `status:sc:N|I|H|B` or `status:sc:U:<url>`
+
+Strings are `.`-separated decimal code points (`-` = empty).
+Reply: one `scheme,host,port method target headers body` group per request, then
+`E <events>` and `O <outcome>`, joined by ` # `.
+-/
 namespace Aio.Driver.C17
-open Aio Aio.Wire
+open Aio Aio.Wire Aio.C17
+
+def parsePairs (s : String) : Option (List (Str × Str)) :=
+  if s == "~" then some [] else
+  (s.splitOn ";").mapM (fun p =>
+    match p.splitOn "," with
+    | [a, b] => do pure (← parseStr a, ← parseStr b)
+    | _ => none)
+
+def parseUrlFields : List String → Option Url
+  | [sch, host, port, hh, cred, hostHdr, target] => do
+    let sch ← sch.toNat?
+    let host ← parseStr host
+    let port ← port.toNat?
+    let cred ← if cred == "~" then pure none else (parseStr cred).map some
+    let hostHdr ← parseStr hostHdr
+    let target ← parseStr target
+    pure { origin := { scheme := sch, host := host, port := port }, hasHost := parseBool hh,
+           cred := cred, hostHdr := hostHdr, target := target }
+  | _ => none
+
+def parseBody (s : String) : Option (Option Body) :=
+  if s == "~" then some none else
+  match s.splitOn "," with
+  | [d, ct, sized, one] => do
+    let d ← parseHex d
+    let ct ← if ct == "~" then pure none else (parseStr ct).map some
+    pure (some { data := d, ctype := ct, sized := parseBool sized, oneShot := parseBool one })
+  | _ => none
+
+def parseResp (s : String) : Option Resp :=
+  match s.splitOn ":" with
+  | [st, sc, k] => do
+    let st ← st.toNat?; let sc ← sc.toNat?
+    let loc ← match k with
+      | "N" => some Loc.none | "I" => some Loc.invalid | "H" => some Loc.nonHttp | "B" => some Loc.badOrigin
+      | _ => none
+    pure { status := st, loc := loc, sc := sc }
+  | [st, sc, "U", u] => do
+    let st ← st.toNat?; let sc ← sc.toNat?
+    let u ← parseUrlFields (u.splitOn ",")
+    pure { status := st, loc := .ok u, sc := sc }
+  | _ => none
+
+def parseList (s : String) (f : String → Option α) : Option (List α) :=
+  if s == "~" then some [] else (s.splitOn "/").mapM f
+
+def parseOracle (s : String) : Option (List (Str × Str) × List (Str × Str)) :=
+  match s.splitOn "@" with
+  | [j, r] => do pure (← parsePairs j, ← parsePairs r)
+  | _ => none
+
+def parseCparse (s : String) : Option (Str × List (Str × Str)) :=
+  match s.splitOn ":" with
+  | [raw, ps] => do pure (← parseStr raw, ← parsePairs ps)
+  | _ => none
+
+def showPairs (h : List Hdr) : String :=
+  if h.isEmpty then "~" else ";".intercalate (h.map (fun x => showStr x.name ++ "," ++ showStr x.value))
+
+def showSent (s : Sent) : String :=
+  s!"{s.url.origin.scheme},{showStr s.url.origin.host},{s.url.origin.port} {showStr s.method} {showStr s.target} {showPairs s.headers} {showHex s.body}"
+
+def showEv : Ev → String
+  | .release i => s!"r{i}"
+  | .close i => s!"c{i}"
+
+def showErr : Err → String
+  | .invalidUrl => "invalidUrl"
+  | .invalidRedirectUrl => "invalidRedirectUrl"
+  | .nonHttpRedirect => "nonHttpRedirect"
+  | .authConflict => "valueError"
+  | .badRequest => "valueError"
+  | .tooManyRedirects => "tooManyRedirects"
+  | .payloadConsumed => "payloadConsumed"
+
+def showOutcome : Outcome → String
+  | .ok f h => s!"ok,{f}," ++ (if h.isEmpty then "~" else ".".intercalate (h.map toString))
+  | .err e => "err," ++ showErr e
+  | .pending => "pending"
+
+/-- the jar as an oracle column: state = remaining per-hop selections -/
+def oracleJar : Jar :=
+  { σ := List (List (Str × Str)), filter := fun s _ => s.headD [], update := fun s _ _ => s.tail }
 
 def handle : List String → String
+  | ["run", cfg, method, url, params, defaults, headers, cookies, body, netrc, cparse, oracles, chain] =>
+    let r : Option String := do
+      let cfg ← match cfg.splitOn "," with
+        | [m, a, t] => do pure ({ maxRedirects := (← m.toNat?), allowRedirects := parseBool a, trustEnv := parseBool t } : Cfg)
+        | _ => none
+      let method ← parseStr method
+      let url ← parseUrlFields (url.splitOn ",")
+      let params ← if params == "~" then pure none else (parseStr params).map some
+      let defaults ← parsePairs defaults
+      let headers ← parsePairs headers
+      let cookies ← if cookies == "~" then pure none else if cookies == "!" then pure (some []) else (parsePairs cookies).map some
+      let body ← parseBody body
+      let netrc ← parsePairs netrc
+      let cparse ← parseList cparse parseCparse
+      let oracles ← parseList oracles parseOracle
+      let chain ← parseList chain parseResp
+      let env : Env :=
+        { jar := oracleJar
+          reqSel := fun hop _ _ => ((oracles.drop hop).head?.map (·.2)).getD []
+          netrc := fun h => (netrc.find? (fun kv => kv.1 == h)).map (·.2)
+          parseCookie := fun raw => ((cparse.find? (fun kv => kv.1 == raw)).map (·.2)).getD [] }
+      let st := init env url params method defaults headers cookies body (oracles.map (·.1))
+      let res := run env cfg st chain
+      let evs := if res.events.isEmpty then "~" else ",".intercalate (res.events.map showEv)
+      pure (" # ".intercalate (res.sent.map showSent ++ ["E " ++ evs, "O " ++ showOutcome res.out]))
+    r.getD "bad-op"
   | _ => "bad-op"
 
 end Aio.Driver.C17
